@@ -8,6 +8,11 @@
     live loop records, that after the clean-up every record has its end offset, that a record only copies the level of a loop
     that encloses it and that a loop's level is its depth.  The scanner's two earlier behaviours (variants of the same spec)
     must be rejected by the same invariants.
+(F) spec/QFinder.tla: text -> tokens.  Scan(text, from) specifies the multi-pattern scanner over the template word list; the
+    transcription of Finder::Next (last unit first, units in between, offset restored on failure) is checked against it for every
+    text up to length 6-7 over five alphabets that spell every word, with every buffer read in bounds; the real Finder is run on the
+    same texts (3 widths, exact-size buffers, ASan) and on texts glued from word fragments, and TLC (OracleFinder) judges every
+    recorded match sequence.
 (B1) code -> spec (E4, hook H2): the real scanner reports its complete projected state before every dispatched token; TLC
     (TraceQTemplateParse) accepts a step only if the model has a transition for that token from the logged state to the state
     logged next, and evaluates the invariants in every recorded state.
@@ -47,6 +52,30 @@ def model(c):
         r = c.tlc("QTemplateParseImpl", cfg, timeout=900, workers=4)
         if inv not in r.violated:
             raise vf.MachineryError("%s: the earlier scanner behaviour is not rejected by %s" % (cfg, inv))
+
+
+FINDER_CFGS = [("if", "123,125,60,62,47,105,102", 6, 7), ("var", "123,118,97,114,58,125,115", 6, 7), ("loop", "60,47,108,111,112,62", 7, 8),
+               ("math", "123,109,97,116,104,58,114,119", 6, 7), ("else", "60,101,108,115,47,105,102", 6, 7)]
+
+
+def finder(c, fbin):
+    """text -> tokens: QFinder (Scan, and the transcription of Finder::Next checked against it) and the real Finder on the same texts"""
+    for name, alpha, q, t in (FINDER_CFGS if c.thorough else FINDER_CFGS[:3]):
+        r = c.tlc("QFinder", "QFinder_%s_%s" % (name, "t" if c.thorough else "q"), timeout=3000, xmx="16g")
+        c.expect_holds(r, "QFinder[%s]: InBounds Agrees BackOnlyToStart" % name)
+        p = os.path.join(c.out, "finder_%s.ndjson" % name)
+        n = (t if c.thorough else q) - 1           # the real scanner on every text one unit shorter than the model bound
+        rc, out, err = c.run([fbin, "enum", alpha, str(n), p], timeout=1500)
+        if c.harness_ok("finder-enum[%s]" % name, rc, out, err):
+            c.oracle("OracleFinder", p, "OracleFinder_" + name, lambda e: "finder text=%r matches=%s" % ("".join(chr(u) for u in e["s"]), e["m"]), timeout=3000, xmx="16g")
+        if os.path.exists(p):
+            os.remove(p)
+    p = os.path.join(c.out, "finder_random.ndjson")
+    rc, out, err = c.run([fbin, "random", str(c.seed), "400000" if c.thorough else "40000", p], timeout=1500)
+    if c.harness_ok("finder-random", rc, out, err):
+        c.oracle("OracleFinder", p, "OracleFinder_random", lambda e: "finder text=%r matches=%s" % ("".join(chr(u) for u in e["s"]), e["m"]), timeout=3000, xmx="16g")
+    if os.path.exists(p):
+        os.remove(p)
 
 
 def validate_traces(c, xasan, inp, cases):
@@ -196,6 +225,16 @@ def gen_cases(c):
                     '<loop set="obj[%s]" value="lv">{var:lv}</loop>', '<if case="{var:obj[%s]} == 1">y<else>n</if>', '{svar:phrase, {var:obj[%s]}, {math:{var:obj[%s]}}}',
                     '{math:{var:obj[%s]} + {var:obj[%s]}}']:
             add(tpl.replace("%s", k), "quotes")
+    # (e) names, attribute values and tags around the limits of the 8 / 16-bit fields that hold their lengths and offsets
+    for n in (253, 254, 255, 256, 257, 511, 512, 513, 65534, 65535, 65536, 65537):
+        name = ("k" * n)
+        vjn = '{"%s":7,"list":[1,2],"phrase":"{0}"}' % name if n <= 600 else '{"list":[1,2],"phrase":"{0}"}'
+        for tpl in ("{var:%s}", "{raw:%s}", "x{var:%s}y{var:%s}", "{math:{var:%s}+1}", '{if case="{var:%s}" true="{var:%s}" false="F"}', "{svar:%s, {var:list[0]}}", "{svar:phrase, {var:%s}}",
+                    '<loop set="%s" value="v">{var:v}</loop>', '<loop set="list" value="%s">{var:%s}</loop>', '<if case="{var:%s} > 1">y<else>n</if>', "{var:list[%s]}", "{var:%s[0]}",
+                    '<loop set="list" value="v" group="%s">{var:v}</loop>', '{if case="1" true="%s" false="%s"}', '{if case="1" true="a" false="b" %s}'):
+            if n > 600 and tpl.count("%s") > 1:
+                continue
+            cases.append((tpl.replace("%s", name), vjn, "limits"))
     # (d) nests deeper than the 8-bit level and than the initial stacks
     for depth in (300, 600):
         for opn, cls, vj in (('<loop set="nest" value="lv">', "</loop>", '{"nest":[[[[1]]]],"a":1,"phrase":"{0}","lv":[2]}'), ('<if case="1">', "</if>", '{"a":1,"lv":[2]}'),
@@ -218,8 +257,9 @@ def write_cases(path, cases):
 
 def main():
     c = vf.Check("C01")
-    asan, xasan, scalar, avx2, noesc = c.build("h_template.asan", "h_template.xasan", "h_template.asan_scalar", "h_template.asan_avx2", "h_template.asan_noesc")
+    asan, xasan, scalar, avx2, noesc, fbin = c.build("h_template.asan", "h_template.xasan", "h_template.asan_scalar", "h_template.asan_avx2", "h_template.asan_noesc", "h_finder.asan")
     model(c)
+    finder(c, fbin)
     cases = gen_cases(c)
     maxlen = 5 if c.thorough else 4
     inp = os.path.join(c.out, "templates.txt")
